@@ -682,6 +682,85 @@ impl SeqSpec for SeqTokens {
     }
 }
 
+// ------------------------------------------------------------------------------------------------
+// auxiliary: free-running stress of the token protocol (SAMPLING — see zverif::stress)
+
+fn token_stress(level: ConcurrencyLevel, budget: std::time::Duration) -> Result<u64, Fail> {
+    use std::sync::atomic::{AtomicBool, AtomicU64, AtomicUsize, Ordering::SeqCst};
+    let mgr = Arc::new(VersionManager::new(level));
+    let stop = Arc::new(AtomicBool::new(false));
+    let fail: Arc<Mutex<Option<Fail>>> = Arc::new(Mutex::new(None));
+    let iters = Arc::new(AtomicU64::new(0));
+    let writers_live = Arc::new(AtomicUsize::new(0));
+    let exclusive = level == ConcurrencyLevel::OneWriteMultiRead;
+    let report = |fail: &Mutex<Option<Fail>>, stop: &AtomicBool, f: Fail| {
+        let mut g = fail.lock().unwrap();
+        if g.is_none() {
+            *g = Some(f);
+        }
+        stop.store(true, SeqCst);
+    };
+    let mut hs = Vec::new();
+    for tid in 0..4usize {
+        let (mgr, stop, fail, iters, writers_live) = (mgr.clone(), stop.clone(), fail.clone(), iters.clone(), writers_live.clone());
+        hs.push(std::thread::spawn(move || {
+            let mut n = 0u64;
+            while !stop.load(SeqCst) {
+                n += 1;
+                // thread 0 holds a reader and looks at what the manager says about it; threads 1, 2 churn readers; thread 3 writers
+                if tid < 3 {
+                    let Ok(t) = mgr.acquire_reader_token() else { continue };
+                    if tid == 0 {
+                        let (ar, mv, v) = (mgr.active_readers(), mgr.min_version(), t.version());
+                        if ar == 0 {
+                            report(&fail, &stop, Fail::new("active_count_mismatch", format!("a thread holds a live reader token (version {v}) while active_readers() = 0")).with_class("stress"));
+                        } else if mv > v {
+                            let mut list = LazyFreeList::new();
+                            list.push(LazyFreeItem::new(v, 0, 8));
+                            let mut freed = 0;
+                            list.process_safe_items(mv, |_| freed += 1);
+                            report(&fail, &stop, Fail::new("min_version_gt_live", format!("min_version() = {mv} exceeds the version {v} of a live reader token held by the observing thread ({freed} item retired at that version reached the free callback)")).with_class("stress"));
+                        }
+                    }
+                    drop(t);
+                } else {
+                    match mgr.acquire_writer_token() {
+                        Ok(t) => {
+                            let others = writers_live.fetch_add(1, SeqCst);
+                            let (aw, mv, v) = (mgr.active_writers(), mgr.min_version(), t.version());
+                            if exclusive && others != 0 {
+                                report(&fail, &stop, Fail::new("two_writers", "two writer tokens live at the same time in OneWriteMultiRead mode".to_string()).with_class("stress"));
+                            } else if aw == 0 {
+                                report(&fail, &stop, Fail::new("active_count_mismatch", format!("a thread holds a live writer token (version {v}) while active_writers() = 0")).with_class("stress"));
+                            } else if mv > v {
+                                report(&fail, &stop, Fail::new("min_version_gt_live", format!("min_version() = {mv} exceeds the version {v} of a live writer token held by the observing thread")).with_class("stress"));
+                            }
+                            writers_live.fetch_sub(1, SeqCst);
+                            drop(t);
+                        }
+                        Err(_) => {}
+                    }
+                }
+            }
+            iters.fetch_add(n, SeqCst);
+        }));
+    }
+    // a second writer thread only where two writers may coexist is not needed for the oracles above
+    std::thread::sleep(budget);
+    stop.store(true, SeqCst);
+    for h in hs {
+        let _ = h.join();
+    }
+    if let Some(f) = fail.lock().unwrap().take() {
+        return Err(f);
+    }
+    let (r, w) = (mgr.active_readers(), mgr.active_writers());
+    if r != 0 || w != 0 {
+        return Err(Fail::new("counts_not_zero_at_quiescence", format!("all threads joined and every token dropped, but active_readers() = {r}, active_writers() = {w}")).with_class("stress"));
+    }
+    Ok(iters.load(SeqCst))
+}
+
 fn main() {
     use Act::*;
     zverif::main_with("C16", |reg, _tier| {
@@ -767,6 +846,15 @@ fn main() {
             bound_quick: 2,
             bound_thorough: 3,
         }));
+        for (lvl, lname) in [(owmr, "OneWriteMultiRead"), (mwmr, "MultiWriteMultiRead")] {
+            reg.add(zverif::stress::Stress(zverif::stress::StressSpec {
+                name: format!("VersionManager[{lname}] free-running stress (sampling)"),
+                describe: "4 uncontrolled threads (a reader that checks active_readers() >= 1 and min_version() <= its own token's version, two reader churners, a writer that checks exclusion / its own count / min_version); after join both counters must be zero. Catches races INSIDE one schedule step of E3 (e.g. a read-modify-write split into load + store)".into(),
+                run: Box::new(move |d| token_stress(lvl, d)),
+                budget_quick_ms: 1200,
+                budget_thorough_ms: 15000,
+            }));
+        }
         reg.add(Seq(SeqTokens { level: owmr, dq: 4, dt: 5 }));
         reg.add(Seq(SeqTokens { level: mwmr, dq: 3, dt: 4 }));
         reg.add(Seq(SeqTokens { level: ConcurrencyLevel::SingleThreadShared, dq: 4, dt: 5 }));
